@@ -79,6 +79,14 @@ Theorem C13_drain_loop_is_the_source : forall eng m s,
 Proof. exact drain_sync_bridge. Qed.
 Print Assumptions C13_drain_loop_is_the_source.
 
+(* ... and one iteration of the consumer loop of the asyncio engine (_run_event_loop): shape checked on every run (dequeue;
+   chain breaker: log, reset the counter, drop the event; hooks; process the event and settle with the counter remembered; reset
+   the counter if the step raised nothing; an exception of the step is logged and the loop goes on), both tests re-translated *)
+Theorem C13_async_step_is_the_source : forall m ev s,
+  async_step_src GenGeom.async_chain_cut GenGeom.async_chain_reset m ev s = async_step m ev s.
+Proof. exact async_step_bridge. Qed.
+Print Assumptions C13_async_step_is_the_source.
+
 Example C13_sync_storm_is_cut :
   let s0 := fst (sync_start storm (st_init [])) in
   s_queue (fst (sync_send storm (Build_event "GO" EPlain 1) s0)) = [] /\
